@@ -15,6 +15,9 @@
  *      thread 1: type 5 "B" stack, labels 2 "two", 7 "seven"; type 3 "A" single again, label 4 "four"
  *   1  as 0 but thread 1 calls type 3 "B": title conflict -> mark_create must fail
  *   2  no thread defines a mark: nothing is created, nothing is registered
+ *   3  (informational) thread 0: type 3 "A" single with labels 1 "one" and 4294967297 "big" - a
+ *      conformant program (distinct positive int64 values); REAL src/emu/pv/pcf.c instead of
+ *      the PCF recorders: pcf_add_value takes an `int`, mark.c narrows the int64 value
  *
  * Oracle for variant 0 (doc/user/runtime/mark.md "Usage in Paraver": one channel per thread and
  * mark type, shown in the thread and CPU views; thread view only while the thread is active
@@ -99,6 +102,9 @@ struct bay_cb *bay_add_cb_tagged(struct bay *bay, enum bay_cb_type type, struct 
 #undef set_name
 #undef find_thread
 #include "src/emu/ovni/mark.c"
+#if VARIANT == 3
+#include "src/emu/pv/pcf.c"
+#endif
 #undef calloc
 
 /* ---- typed zeroed pools (allocation failure is outside all claims) --------------------------- */
@@ -108,6 +114,14 @@ static struct chan ch_pool[NTH][NTY];
 static struct track tr_pool[NTH + NCPU][NTY];
 static struct mux_input mi_pool[(NTH + NCPU) * NTY][NTH];
 static int n_mt, n_ml, n_ch, n_tr, n_mi, alloc_bad;
+#if VARIANT == 3
+#define NTY_V3 1
+static struct chan ch1_pool[NTH][1];
+static struct track tr1_pool[NTH + NCPU][1];
+static struct pcf_type pt_pool[2];
+static struct pcf_value pv_pool[4];
+static int n_ptp, n_pvp;
+#endif
 
 static void *
 c17_calloc(size_t n, size_t sz)
@@ -122,6 +136,16 @@ c17_calloc(size_t n, size_t sz)
 		return tr_pool[n_tr++];
 	if (sz == sizeof(struct mux_input) && n >= 1 && n <= NTH && n_mi < (NTH + NCPU) * NTY)
 		return mi_pool[n_mi++];
+#if VARIANT == 3
+	if (n == 1 && sz == sizeof(struct chan) && n_ch < NTH)
+		return ch1_pool[n_ch++];
+	if (n == 1 && sz == sizeof(struct track) && n_tr < NTH + NCPU)
+		return tr1_pool[n_tr++];
+	if (n == 1 && sz == sizeof(struct pcf_type) && n_ptp < 2)
+		return &pt_pool[n_ptp++];
+	if (n == 1 && sz == sizeof(struct pcf_value) && n_pvp < 4)
+		return &pv_pool[n_pvp++];
+#endif
 	alloc_bad = 1;
 	return NULL;
 }
@@ -226,6 +250,7 @@ struct pcf *pvt_get_pcf(struct pvt *pvt) { return pvt == &pvt_thread ? &pcf_thre
 
 #define MAXPT (2 * NTY)
 #define MAXPV 8
+#if VARIANT != 3
 static struct pcf_type pt_obj[MAXPT + 1];
 static struct { struct pcf *pcf; int id; const char *label; } pt_rec[MAXPT + 1];
 static int n_pt;
@@ -252,6 +277,10 @@ pcf_add_value(struct pcf_type *type, int value, const char *label)
 	pv_rec[n_pv].label = label;
 	return &pv_obj[n_pv++];
 }
+
+#else
+static int n_pt, n_pv;
+#endif
 
 #define MAXROWS (NTY * (NTH + NCPU))
 static struct { struct prv *prv; long row, type, flags; struct chan *chan; struct bay *bay; } rows[MAXROWS + 1];
@@ -297,6 +326,7 @@ str_is(const char *a, const char *b)
 	return a[i] == '\0';
 }
 
+#if VARIANT != 3
 /* the unique pcf type `id` in `pcf` has title `title`; returns its handle or NULL */
 static struct pcf_type *
 pcf_type_find(struct pcf *pcf, int id, const char *title)
@@ -334,6 +364,7 @@ pcf_values_of(struct pcf_type *type)
 	}
 	return n;
 }
+#endif
 
 /* ---- the system ------------------------------------------------------------------------------------ */
 static struct emu emu;
@@ -397,7 +428,12 @@ harness(void)
 	struct vjson_node *r0 = vj_obj(), *r1 = vj_obj();
 	vj_set_num(vj_path_obj(r0, "ovni"), "tid", 100);
 	vj_set_num(vj_path_obj(r1, "ovni"), "tid", 101);
-#if VARIANT != 2
+#if VARIANT == 3
+	struct vjson_node *m0 = vj_path_obj(r0, "ovni.mark");
+	struct vjson_node *l3 = add_type(m0, "3", "A", "single");
+	vj_set_str(l3, "1", "one");
+	vj_set_str(l3, "4294967297", "big");
+#elif VARIANT != 2
 	struct vjson_node *m0 = vj_path_obj(r0, "ovni.mark"), *m1 = vj_path_obj(r1, "ovni.mark");
 	vj_set_str(add_type(m0, "3", "A", "single"), "1", "one");
 	struct vjson_node *l5 = add_type(m1, "5", "B", "stack");
@@ -414,6 +450,12 @@ harness(void)
 #if VARIANT == 1
 	V_ASSERT(rc == -1, "C17: mark_create refuses the trace when two threads give one mark type different titles");
 	V_REACH("conflict-refused-by-mark_create");
+	return;
+#elif VARIANT == 3
+	V_ASSERT(rc == 0, "C17: mark_create accepts agreeing definitions");
+	int rn = mark_connect(&emu);
+	V_REACH("int64-labels-connected");
+	V_ASSERT(rn == 0, "C17 (informational): labels for two DISTINCT positive int64 values of a type (1 and 2^32+1) are both registered for the timeline");
 	return;
 #else
 	V_ASSERT(rc == 0, "C17: mark_create accepts agreeing definitions");
